@@ -155,6 +155,7 @@ func newV1(t *testing.T, cfg Config, gated bool) *v1run {
 	base := dividerV1(cfg.Div)
 	div := func(ps []uint, d uint, dist map[uint]uint) map[uint]uint {
 		r.divCalls++
+		noteContract(cfg.Prios, cfg.H, ps, d, dist != nil, true)
 		before := uint(0)
 		for _, v := range dist {
 			before += v
@@ -644,8 +645,13 @@ func runV1(t *testing.T, cfg Config, seed int64, steps int, flush func(log []any
 		}
 		if len(terms) > 0 && rnd.Intn(5) != 0 {
 			plan = append(plan, planned{rnd.Intn(steps), terms[rnd.Intn(len(terms))]})
-			if rnd.Intn(4) == 0 { // a second, different terminating call later (e.g. Stop during a pending GracefulStop)
+			if rnd.Intn(4) == 0 { // a second terminating call later
 				plan = append(plan, planned{rnd.Intn(steps), terms[rnd.Intn(len(terms))]})
+			}
+			if cfg.Graceful && len(terms) > 1 && rnd.Intn(4) == 0 {
+				// a rough stop / cancellation while a graceful stop is pending (inputs still open)
+				at := rnd.Intn(steps/3 + 1)
+				plan = []planned{{at, "grace"}, {at + 1 + rnd.Intn(steps-at), terms[rnd.Intn(len(terms)-1)]}}
 			}
 		}
 		for range cfg.Adds {
@@ -709,6 +715,7 @@ func TestRecordV1(t *testing.T) {
 			events.w.Flush()
 		})
 	}
+	flushContract(t, "contract_v1.ndjson")
 	t.Logf("RECORDED v1 runs=%d records=%d", n, events.n)
 }
 
